@@ -19,7 +19,8 @@ func init() {
 		Rule: "one publisher with 3..6 initial subscriptions (each with a scripted callback action: none / unsubscribe itself / unsubscribe another / subscribe a new one), optional Map-derived publisher with its own subscriptions, " +
 			"optional SubscribeOn(handler); 1..3 threads run histories over Publish(unique v) / Subscribe / Unsubscribe; oracle per (Publish, subscription): exactly one delivery when registered before the call and not unsubscribed " +
 			"before it returned, none when unsubscribed before it began, never two; subscription order without handler; handler thread identity; Map delivers fn(v) once; " +
-			"non-trivial = a (un)subscribe overlapped a Publish (re-entrant or concurrent); distinct = distinct context-switch signature",
+			"non-trivial = a (un)subscribe overlapped a Publish (re-entrant or concurrent); distinct = distinct context-switch signature" +
+			" Flavours: publisher tree (Map, Map of Map, run-time Map), values published into derived publishers, (un)subscriptions on derived publishers incl. drain-and-resubscribe, derived publishers with a SubscribeOn handler of their own (another / the origin's), handler closed right after the last publish, placeholder subscriptions.",
 		Real: []string{"fpgo.PublisherDef (Subscribe, Unsubscribe, Publish, Map, SubscribeOn)", "fpgo.HandlerDef"},
 		Stub: []string{"goroutine scheduler", "subscription callbacks"},
 	})
